@@ -1480,6 +1480,10 @@ impl PeerConnection {
             }
         }
 
+        // The state check happens here; the transition itself is made only once the
+        // description has been applied, so a call that fails further down (transport
+        // setup) does not leave the connection in the next signaling state.
+        let next_state;
         {
             let state = &self.inner.signaling_state;
             match desc.sdp_type {
@@ -1489,7 +1493,7 @@ impl PeerConnection {
                             "set_remote_description(offer) requires stable signaling state".into(),
                         ));
                     }
-                    let _ = state.send(SignalingState::HaveRemoteOffer);
+                    next_state = Some(SignalingState::HaveRemoteOffer);
                 }
                 SdpType::Answer => {
                     if *state.borrow() != SignalingState::HaveLocalOffer {
@@ -1497,7 +1501,7 @@ impl PeerConnection {
                             "set_remote_description(answer) requires local offer".into(),
                         ));
                     }
-                    let _ = state.send(SignalingState::Stable);
+                    next_state = Some(SignalingState::Stable);
                 }
                 SdpType::Pranswer => {
                     // Provisional answer (SIP 183 early media): set up media transport like an
@@ -1509,6 +1513,7 @@ impl PeerConnection {
                         ));
                     }
                     // Do NOT transition to Stable – stay in HaveLocalOffer.
+                    next_state = None;
                 }
                 SdpType::Rollback => {
                     return Err(RtcError::NotImplemented("rollback"));
@@ -1517,6 +1522,9 @@ impl PeerConnection {
         }
 
         if previous_remote.is_some() && !media_parameters_changed {
+            if let Some(next) = next_state {
+                let _ = self.inner.signaling_state.send(next);
+            }
             *self.inner.remote_description.lock() = Some(desc);
             debug!(
                 "Remote SDP media parameters unchanged; updated signaling state without reconfiguring transports"
@@ -2012,6 +2020,9 @@ impl PeerConnection {
         // destination in sync across answers and re-INVITEs.
         self.update_rtcp_mux_from_remote();
 
+        if let Some(next) = next_state {
+            let _ = self.inner.signaling_state.send(next);
+        }
         Ok(())
     }
 
